@@ -1275,10 +1275,11 @@ impl<T> TCompactInputProtocol<T> {
         }
     }
 
-    fn assert_no_pending_bool_read(&self) {
-        if let Some(ref f) = self.pending_read_bool_field_identifier {
-            panic!("pending bool field {:?} not read", f);
-        }
+    // On the reading side the marker set by `field_begin_len(Bool, ..)` carries
+    // no obligation (the header was already counted there, and generated union
+    // decoders never call `field_end_len`), so it is dropped, not asserted on.
+    fn assert_no_pending_bool_read(&mut self) {
+        self.pending_read_bool_field_identifier = None;
     }
 }
 
